@@ -129,6 +129,7 @@ class RawPeer:
         self._read_timer = False
         self.sent_plain = 0
         self.tls_error = None
+        self.hs_bytes_out = None
         self.on_plain = None      # optional callback(peer, data)
         ep.on_event = self._on_event
         if self.eng and not server_side:
@@ -217,6 +218,11 @@ class RawPeer:
                     self.tls_error = self.eng.error
                 if self.eng.hs_done and not was:
                     self.t_hs_done = self.net.now
+                    out = self.eng.take_out()
+                    if out:
+                        self.outq += out
+                    # ciphertext bytes of our handshake flights (Finished included)
+                    self.hs_bytes_out = self.ep.tx.sent + len(self.outq)
                     if not self.server_side and self.coalesce_first and not self.started:
                         # first app record rides with our Finished
                         self._start()
@@ -333,6 +339,8 @@ class RawPeer:
             elif k == "call":
                 self.pc += 1
                 act[1](self)
+                if self.waiting:
+                    return
             else:
                 raise ValueError(k)
         if not self.finished:
